@@ -668,3 +668,17 @@ Theorem avg_common_weight_factor : forall flagav (c : Qc) l, c <> 0%Qc ->
   spec_bin flagav (map (scale_w c) l) = scale_w c (spec_bin flagav l).
 Proof. exact avg_weight_scaling. Qed.
 Print Assumptions avg_common_weight_factor.
+
+(* HDF5 v3 under EVERY second-stage index (per-axis lists of kept positions: slices, integers, lists, masks, on one,
+   two or three axes at once, repeated / unsorted positions included): element (i, j, k) of d.weights[kt, kf, kb] is
+   the product of the two stored arrays at (kt[i], kf[j], kb[k]) resp. (kt[i], kf[j]) - absent arrays reading one *)
+Theorem v3_weights_any_index : forall sel hw hwc w wc kt kf kb,
+  List.length (v3_weights_indexed sel hw hwc w wc kt kf kb) = List.length kt /\
+  forall i j k, i < List.length kt -> j < List.length kf -> k < List.length kb ->
+    List.length (nth i (v3_weights_indexed sel hw hwc w wc kt kf kb) []) = List.length kf /\
+    List.length (nth j (nth i (v3_weights_indexed sel hw hwc w wc kt kf kb) []) []) = List.length kb /\
+    Weights.get3 (v3_weights_indexed sel hw hwc w wc kt kf kb) NaN i j k =
+    v3_weight sel hw hwc (Weights.get3 w NaN (nth i kt 0) (nth j kf 0) (nth k kb 0))
+                         (nth (nth j kf 0) (nth (nth i kt 0) wc []) NaN).
+Proof. exact v3_weights_outer. Qed.
+Print Assumptions v3_weights_any_index.
